@@ -317,6 +317,40 @@ impl Machine {
                     }
                 }
             }
+            // Display of the whole tree: every leaf's message with its own ` at path`, in
+            // left-to-right order, each bundle's own ` at path` after its last member
+            {
+                fn pieces(m: &RT, pool: &[Span], out: &mut Vec<String>) {
+                    match m {
+                        RT::Leaf { id, syn, locs, .. } => {
+                            let mut p = kind_text(*id, *syn, pool);
+                            if !locs.is_empty() {
+                                p.push_str(" at ");
+                                p.push_str(&locs.join("/"));
+                            }
+                            out.push(p);
+                        }
+                        RT::Multi { kids, locs, .. } => {
+                            for k in kids {
+                                pieces(k, pool, out);
+                            }
+                            if !locs.is_empty() {
+                                out.push(format!(" at {}", locs.join("/")));
+                            }
+                        }
+                    }
+                }
+                let mut want = vec![];
+                pieces(m, pool, &mut want);
+                let d = e.to_string();
+                let mut from = 0usize;
+                for (i, p) in want.iter().enumerate() {
+                    match d[from..].find(p.as_str()) {
+                        Some(k) => from += k + p.len(),
+                        None => return Err(format!("Display `{d}` does not show `{p}` (piece {i} of {want:?}, searched in order)")),
+                    }
+                }
+            }
             // top-level Display: kind text, then ` at path` when located
             let own_locs = match m {
                 RT::Leaf { locs, .. } | RT::Multi { locs, .. } => locs,
@@ -450,7 +484,7 @@ pub struct S {
 }
 impl PartialEq for S {
     fn eq(&self, o: &S) -> bool {
-        self.model == o.model && self.span_phase() == o.span_phase()
+        self.model == o.model && self.span_phase() == o.span_phase() && self.hist.len() == o.hist.len()
     }
 }
 impl Eq for S {}
@@ -458,6 +492,9 @@ impl std::hash::Hash for S {
     fn hash<H: std::hash::Hasher>(&self, h: &mut H) {
         self.model.hash(h);
         self.span_phase().hash(h);
+        // depth is part of the key: under parallel search a merged state could otherwise be
+        // first reached at a larger depth and lose successors to the depth bound
+        self.hist.len().hash(h);
     }
 }
 impl S {
